@@ -185,6 +185,25 @@ class SDExecutor(Executor3):
 SUITE = Suite(SCHEMA, [TC, TX_TREE], CONTRACTS + ASSUMED, executor_cls=SDExecutor)
 
 
+def validate_assumed(ctx):
+    """the ASSUMED contract of Tree.encode_bipartitions -- every split listed once -- checked natively on small trees (bounded)"""
+    import dendropy
+    from contracts import _wf
+    scope = "assumed-contracts@encode_bipartitions"
+    ctx.scope(scope, rule="split bitmasks of a fresh encoding are pairwise distinct, on %d small trees x {rooted, unrooted}" % len(_wf.NEWICKS), exhaustive=False)
+    for nw in _wf.NEWICKS:
+        for rooting in ("[&R] ", "[&U] "):
+            tree = dendropy.Tree.get(data=rooting + nw, schema="newick", suppress_internal_node_taxa=False)
+            enc = tree.encode_bipartitions()
+            masks = [b.split_bitmask for b in enc]
+            n_leaves = len(tree.leaf_nodes())
+            key = "%s%s (%d leaves after encoding)" % (rooting, nw, n_leaves)
+            ctx.case(scope, key, nontrivial=n_leaves >= 3, sample=key)
+            if len(set(masks)) != len(masks):
+                ctx.fail("assumed.encode_bipartitions.splits-listed-once", dict(key=key, tree=rooting + nw, masks=[bin(m) for m in masks]),
+                         detail="%s: split bitmasks %s" % (key, [bin(m) for m in masks]), kind="T2")
+
+
 def t1(ctx):
     ctx.assume("C05/T1: Python floats are mathematical reals (division exact; the bounded driver compares natively with a tolerance); "
                "split bitmasks are opaque integer dictionary keys; dictionaries are reached only through self.<field>")
@@ -192,6 +211,7 @@ def t1(ctx):
                "(Tree.from_split_bitmasks), summarisation, collapsing and credibility scores are decided by the bounded driver only (T2)")
     for c in CONTRACTS:
         verify_contract(ctx, SUITE, c, sentinels=False, replay=dreplay.replay_by_search(_states))
+    validate_assumed(ctx)
 
 
 # ----------------------------------------------------------------------------- native replay: small accumulator states
